@@ -25,7 +25,9 @@ def results() -> list:
     base = [None, True, False, 0, -1, 2 ** 63, 0.5, -0.0, float("inf"), float("nan"), "", "a", "é ",
             "x" * (THRESHOLD - 3), "x" * (THRESHOLD - 2), "x" * (THRESHOLD - 1), "x" * 3000,
             [], {}, [1, "a", None], {"k": [1, 2]}, {"a": {"b": [True, 0.5]}}, [[], [0]], tasks.Color.RED,
-            tasks.Level.HIGH, [tasks.Color.BLUE, {"c": tasks.Color.RED}], "__pynenc__", {"error": "x"}]
+            tasks.Level.HIGH, [tasks.Color.BLUE, {"c": tasks.Color.RED}], "__pynenc__", {"error": "x"},
+            # an exception instance RETURNED as a value is a value: SUCCESS must hand it back, not raise it
+            ValueError("returned, not raised"), tasks.UserError("u", 3)]
     return base
 
 
@@ -50,6 +52,8 @@ def deep_eq(a: Any, b: Any) -> bool:
         return len(a) == len(b) and all(deep_eq(x, y) for x, y in zip(a, b))
     if isinstance(a, dict):
         return list(a.keys()) == list(b.keys()) and all(deep_eq(a[k], b[k]) for k in a)
+    if isinstance(a, BaseException):
+        return deep_eq(list(a.args), list(b.args))
     return a == b
 
 
